@@ -676,3 +676,15 @@ def run(facts, rep, ctx):
     ts4(facts, rep)
     sg1(facts, rep)
     sb8(facts, rep)
+
+
+_run_before_round2 = run
+
+
+def run(facts, rep, ctx):
+    """rules added after the second round of independent seeding (rules/round2.py)"""
+    _run_before_round2(facts, rep, ctx)
+    from . import round2
+    round2.ts3b(facts, rep)
+    round2.ts4b(facts, rep)
+
